@@ -50,12 +50,20 @@ CONSTANTS
     RebaseChunks,       \* closeWithCombine rebases "chunk" entries as well as non-empty "reg" entries
     KeepChunkSize,      \* ent.ChunkSize = chunkSize when a full chunk remains
     DivideKeepsAll,     \* divideEntries puts every entry into exactly one part
-    LandmarkOwnStream   \* needsOpenGzEntries (C14; kept so that both modules agree on the decision)
+    LandmarkOwnStream,  \* needsOpenGzEntries (C14; kept so that both modules agree on the decision)
+    KeepLastDup,        \* importTar: of several entries with one name the LAST is kept (whatever its type)
+    ReservedByFullName  \* appendTar: the reserved TOC name is compared with the cleaned FULL path, not the base name
 
 NoPLm == ".no.prefetch.landmark"
 PLm   == ".prefetch.landmark"
 TOCName == "stargz.index.json"
-Ent(name, type, link, size, c) == [name |-> name, type |-> type, link |-> link, size |-> size, c |-> c]   \* c: content id
+Ent(name, type, link, size, c, meta) == [name |-> name, type |-> type, link |-> link, size |-> size, c |-> c, meta |-> meta]
+    \* c: content id; meta: the tar header metadata that must survive, [mode, uid, gid, mtime] (xattrs are not in the universe)
+Meta(m, u, g, t) == [mode |-> m, uid |-> u, gid |-> g, mtime |-> t]
+MetaA == Meta(493, 0, 0, 0)                       \* 0755 root, no mtime
+MetaB == Meta(448, 1000, 1000, 1700000000)        \* 0700 uid/gid 1000 with an mtime: what a repeated entry carries
+LmMeta == Meta(0, 0, 0, 0)                        \* the landmark header sortEntries makes
+NoMeta == Meta(0, 0, 0, 0)
 LmCid == "sha256:dc0e9c3658a1a3ed1ec94274d8b19925c93e1abb7ddba294923ad9bde30f8cb8"   \* SHA-256 of the landmark contents, the one byte 0x0f
 Min(a, b) == IF a < b THEN a ELSE b
 Range(s) == {s[i] : i \in 1..Len(s)}
@@ -73,14 +81,34 @@ VARIABLES
 vars == <<phase, input, opt, lay>>
 
 -----------------------------------------------------------------------------
-(* what the writer is given (D3) *)
+(* what must come out (D3) - declarative: Build folds duplicates (last of a name wins, with ITS metadata and     *)
+(* content) and drops landmarks of the input; an entry named exactly stargz.index.json in the root is reserved  *)
+(* and dropped (lossless: refused, not enumerated); files that merely have such a BASE name in a sub-directory  *)
+(* are ordinary entries.                                                                                        *)
 EffOf(t) ==
     LET keep(i) == t[i].name \notin {PLm, NoPLm} /\ \A j \in (i+1)..Len(t) : t[j].name # t[i].name
         idx == SelectSeq([i \in 1..Len(t) |-> i], keep)
     IN  [k \in 1..Len(idx) |-> t[idx[k]]]
+LmEnt == Ent(NoPLm, "reg", "", 1, LmCid, LmMeta)
 Expected(mode, t) ==
-    IF mode = "build" THEN <<Ent(NoPLm, "reg", "", 1, LmCid)>> \o EffOf(t)
+    IF mode = "build" THEN <<LmEnt>> \o SelectSeq(EffOf(t), LAMBDA e : e.name # TOCName)
     ELSE SelectSeq(t, LAMBDA e : e.name # TOCName)
+
+(* what the code writes - transcription of importTar's replace-if-present and appendTar's reserved-name test *)
+Base(n) == IF n \in {"sub/stargz.index.json", TOCName} THEN TOCName
+           ELSE IF n = "sub/.prefetch.landmark" THEN PLm ELSE IF n = "sub/.no.prefetch.landmark" THEN NoPLm ELSE n
+RECURSIVE ImportFrom(_, _)
+ImportFrom(t, acc) ==
+    IF t = <<>> THEN acc
+    ELSE LET e == Head(t)
+             had == \E i \in 1..Len(acc) : acc[i].name = e.name
+         IN  IF e.name \in {PLm, NoPLm} THEN ImportFrom(Tail(t), acc)
+             ELSE IF had /\ ~KeepLastDup /\ e.type = "dir" THEN ImportFrom(Tail(t), acc)
+             ELSE ImportFrom(Tail(t), Append(SelectSeq(acc, LAMBDA x : x.name # e.name), e))
+Reserved(e) == IF ReservedByFullName THEN e.name = TOCName ELSE Base(e.name) = TOCName
+\* Build: sortEntries and divideEntries still see a reserved entry (it counts for the sizes of the parts); appendTar skips it
+Sorted(mode, t) == IF mode = "build" THEN <<LmEnt>> \o ImportFrom(t, <<>>) ELSE t
+Written(mode, t) == SelectSeq(Sorted(mode, t), LAMBDA e : ~Reserved(e))
 
 (* divideEntries *)
 RECURSIVE SumSizes(_)
@@ -147,8 +175,14 @@ PartRun(o, idxs, hdr, minOn, enough, csz, tail) ==
     \* cannot happen: the entry's header is written first. A member always holds at least one item.
 
 (* all writers + closeWithCombine. csize[g] = compressed size of the g-th member of the whole blob (D1).   *)
-WriterRun(o, hdr, op, enough, csize, tail) ==
-    LET parts == IF op.mode = "build" /\ ~op.minOn THEN DivideEntries(o, op.workers) ELSE <<[i \in 1..Len(o) |-> i]>>
+\* full = what sortEntries hands to divideEntries (still with a reserved entry); o = full without reserved entries =
+\* what is written; all indices below are indices into o
+WriterRun(full, hdr, op, enough, csize, tail) ==
+    LET o == SelectSeq(full, LAMBDA e : ~Reserved(e))
+        rank(f) == Cardinality({g \in 1..f : ~Reserved(full[g])})
+        conv(part) == LET kept == SelectSeq(part, LAMBDA f : ~Reserved(full[f])) IN [j \in 1..Len(kept) |-> rank(kept[j])]
+        fparts == IF op.mode = "build" /\ ~op.minOn THEN DivideEntries(full, op.workers) ELSE <<[i \in 1..Len(full) |-> i]>>
+        parts == [p \in 1..Len(fparts) |-> conv(fparts[p])] \o <<>>
         runs  == [p \in 1..Len(parts) |-> PartRun(o, parts[p], hdr, op.minOn, enough, op.chunk, IF op.mode = "lossless" THEN tail ELSE 0)] \o <<>>   \* \o <<>>: make TLC evaluate the sequence once
         nmem(p) == Len(runs[p].members)
         first(p) == SumSeq([q \in 1..(p - 1) |-> nmem(q)])         \* global ordinal - 1 of the part's first member
@@ -173,12 +207,28 @@ Init == phase = "in" /\ input = <<>> /\ opt = [mode |-> "", minOn |-> FALSE, wor
 
 AddFile(sz, dup) ==
     /\ phase = "in" /\ Len(input) < MaxEntries
-    /\ input' = Append(input, Ent(IF dup /\ Len(input) > 0 THEN input[1].name ELSE Names[Len(input) + 1], "reg", "", sz, "c"))
+    /\ input' = Append(input, IF dup /\ Len(input) > 0 THEN Ent(input[1].name, "reg", "", sz, "c", MetaB)
+                                ELSE Ent(Names[Len(input) + 1], "reg", "", sz, "c", MetaA))
     /\ UNCHANGED <<phase, opt, lay>>
-AddDir ==
+\* a directory; dup: the name of the first entry again, with other mode/owner/mtime (MetaB)
+AddDir(dup) ==
     /\ phase = "in" /\ Len(input) < MaxEntries
-    /\ input' = Append(input, Ent(Names[Len(input) + 1], "dir", "", 0, "c"))
+    /\ input' = Append(input, IF dup /\ Len(input) > 0 THEN Ent(input[1].name, "dir", "", 0, "c", MetaB)
+                                ELSE Ent(Names[Len(input) + 1], "dir", "", 0, "c", MetaA))
     /\ UNCHANGED <<phase, opt, lay>>
+\* files whose name is, or merely ends in, a reserved name
+Specials == {"sub/stargz.index.json", "sub/.prefetch.landmark", "sub/.no.prefetch.landmark", TOCName}
+AddSpecial(nm) ==
+    /\ phase = "in" /\ Len(input) < MaxEntries
+    /\ \A i \in 1..Len(input) : input[i].name # nm
+    /\ input' = Append(input, Ent(nm, "reg", "", 3, "c", MetaA))
+    /\ UNCHANGED <<phase, opt, lay>>
+\* which (mode, workers) go with an input
+ModeOK(m, w) ==
+    /\ (m # "build") => (w = 1 /\ \A a, b \in 1..Len(input) : a # b => input[a].name # input[b].name)
+        \* plain Writer/AppendTar does not fold duplicates (both entries are written, a tar reader lets the last win);
+        \* the formulas identify a file by its name, so duplicate names are enumerated for Build only
+    /\ (m = "lossless") => \A a \in 1..Len(input) : input[a].name # TOCName     \* refused by design
 
 \* model layout in the monitor's vocabulary: what lies at (off, inner) for n bytes
 HeldAt(members, off, inner, n) ==
@@ -191,45 +241,46 @@ HeldAt(members, off, inner, n) ==
 
 Run(op, enough) ==
     /\ phase = "in" /\ phase' = "done" /\ opt' = op
-    /\ LET o == Expected(op.mode, input)
+    /\ LET o == Written(op.mode, input)
            hdr == [i \in 1..Len(o) |-> 512]
            csz == <<2, 3, 4, 2, 3, 4, 2, 3, 4, 2, 3, 4, 2, 3, 4, 2, 3, 4, 2, 3, 4, 2, 3, 4, 2, 3, 4, 2, 3, 4, 2, 3, 4, 2, 3, 4, 2, 3, 4, 2>>
-           r == WriterRun(o, hdr, op, enough, csz, 1024)
+           r == WriterRun(Sorted(op.mode, input), hdr, op, enough, csz, 1024)
            n(t) == IF t.cs # 0 THEN t.cs ELSE o[t.i].size - t.o
            hs == ConcatAll([g \in 1..Len(r.members) |-> SelectSeq(r.members[g].items, LAMBDA it : it.k = "h")])
        IN lay' = [order |-> [j \in 1..Len(hs) |-> o[hs[j].i]],
                   members |-> [g \in 1..Len(r.members) |-> [s |-> r.members[g].s, e |-> r.members[g].e]],
                   toc |-> [j \in 1..Len(r.toc) |-> LET t == r.toc[j] IN
-                             [name |-> o[t.i].name, type |-> t.type, size |-> t.size, o |-> t.o, cs |-> t.cs, off |-> t.off, inner |-> t.inner,
+                             [name |-> o[t.i].name, type |-> t.type, size |-> t.size,
+                              link |-> IF t.type = "chunk" THEN "" ELSE o[t.i].link, meta |-> IF t.type = "chunk" THEN NoMeta ELSE o[t.i].meta, o |-> t.o, cs |-> t.cs, off |-> t.off, inner |-> t.inner,
                               data |-> (t.type = "chunk" \/ (t.type = "reg" /\ t.size > 0)),
                               at  |-> IF t.type = "chunk" \/ (t.type = "reg" /\ t.size > 0) THEN HeldAt(r.members, t.off, t.inner, n(t)) ELSE <<>>,
                               src |-> IF t.type = "chunk" \/ (t.type = "reg" /\ t.size > 0) THEN <<t.i, t.o, n(t)>> ELSE <<>>,
                               cd  |-> IF t.type = "chunk" \/ (t.type = "reg" /\ t.size > 0) THEN <<t.i, t.o, n(t)>> ELSE <<>>,
                               fd  |-> <<t.i>>, fsrc |-> <<t.i>>]],
-                  expected |-> o,
+                  expected |-> Expected(op.mode, input),
                   diffid |-> "x", shaAll |-> "x", tocdigest |-> "y", shaToc |-> "y", shaPayload |-> "z", shaInput |-> "z"]
     /\ UNCHANGED input
 
-Next ==
+AddAny ==
     \/ \E sz \in Sizes, dup \in BOOLEAN : AddFile(sz, dup)
-    \/ AddDir
+    \/ \E dup \in BOOLEAN : AddDir(dup)
+    \/ \E nm \in Specials : AddSpecial(nm)
+Next ==
+    \/ AddAny
     \/ \E m \in Modes, mo \in MinOnSet, w \in WorkerSet :
          LET op == [mode |-> m, minOn |-> mo, workers |-> w, chunk |-> ChunkSz]
-             o == Expected(m, input)
+             o == Written(m, input)
              chunks == UNION {{<<i, k * ChunkSz>> : k \in 0..((o[i].size - 1) \div ChunkSz)} : i \in {i \in 1..Len(o) : o[i].type = "reg" /\ o[i].size > 0}}
-         IN  /\ (m # "build") => (w = 1 /\ \A a, b \in 1..Len(input) : a # b => input[a].name # input[b].name)
-                 \* plain Writer/AppendTar does not fold duplicates (both entries are written, a tar reader lets the last win);
-                 \* the formulas identify a file by its name, so duplicate names are enumerated for Build only
+         IN  /\ ModeOK(m, w)
              /\ (mo /\ m = "build") => w = 1
              /\ \E enough \in (IF mo THEN SUBSET chunks ELSE {{}}) : Run(op, enough)
 
 \* generation: the cases (input, mode, workers) without computing the layout
 GenRun(op) == phase = "in" /\ phase' = "done" /\ opt' = op /\ lay' = [x |-> 0] /\ UNCHANGED input
 GenNextW ==
-    \/ \E sz \in Sizes, dup \in BOOLEAN : AddFile(sz, dup)
-    \/ AddDir
+    \/ AddAny
     \/ \E m \in Modes, w \in WorkerSet :
-         /\ (m # "build") => (w = 1 /\ \A a, b \in 1..Len(input) : a # b => input[a].name # input[b].name)
+         /\ ModeOK(m, w)
          /\ GenRun([mode |-> m, minOn |-> FALSE, workers |-> w, chunk |-> ChunkSz])
 
 Spec == Init /\ [][Next]_vars
@@ -263,11 +314,14 @@ OffsetsUniquePerStreamStart ==
             /\ \A j, k \in DataRows : (j < k /\ T[j].off = T[k].off) => T[j].inner < T[k].inner
             /\ \A j, k \in DataRows : (j < k) => T[j].off <= T[k].off
 
-\* the decompressed tar holds exactly the expected entries in order, and the TOC lists the same entries (chunks folded)
+\* the decompressed tar holds exactly the expected entries in order - name, type, link name, size, content AND
+\* metadata (mode, uid, gid, mtime) - and the TOC lists the same entries with the same metadata (chunks folded)
+TocView(t) == [name |-> t.name, type |-> t.type, link |-> t.link, size |-> t.size, meta |-> t.meta]
+EntView(e) == [name |-> e.name, type |-> e.type, link |-> e.link, size |-> IF e.type = "reg" THEN e.size ELSE 0, meta |-> e.meta]
 EntriesPreserved ==
     Done => /\ lay.order = lay.expected
-            /\ [j \in 1..Len(SelectSeq(T, LAMBDA t : t.type # "chunk")) |-> SelectSeq(T, LAMBDA t : t.type # "chunk")[j].name]
-                 = [j \in 1..Len(lay.expected) |-> lay.expected[j].name]
+            /\ LET rows == SelectSeq(T, LAMBDA t : t.type # "chunk") IN
+               [j \in 1..Len(rows) |-> TocView(rows[j])] = [j \in 1..Len(lay.expected) |-> EntView(lay.expected[j])]
 
 DiffIDIsHashOfDecompressed == Done => lay.diffid = lay.shaAll
 TocDigestIsHashOfTocJSON   == Done => lay.tocdigest = lay.shaToc
